@@ -132,7 +132,7 @@ type Sim struct {
 	calm        bool // no more scheduler-made faults (stalls, delayed goroutines)
 	lastParked  int  // size of the parked set at the last release
 	jitterN     int64
-	deadlines   map[int64]struct{} // instants (ns since start) at which a timer made through Jitter fires
+	deadlines   []int64 // open-addressing set (0 = free) of the instants (ns since start) at which a timer made through Jitter fires; a slice, not a map: the race detector sees map accesses even in norace functions
 	starveOrder int
 	starveFocus []string
 	starveSub   string // development aid: SIM_STARVE_SITE=<substring> starves exactly the matching sites
@@ -562,6 +562,34 @@ const (
 	jitterTicks = 2048 // ticks of a ticker whose instants are kept free of other deadlines
 )
 
+const dlSize = 1 << 16
+
+//go:norace
+func dlSlot(v int64) int { return int(hash64(0x9e3779b97f4a7c15, uint64(v)) & (dlSize - 1)) }
+
+//go:norace
+func dlHas(t []int64, v int64) bool {
+	for i, n := dlSlot(v), 0; n < dlSize; i, n = (i+1)&(dlSize-1), n+1 {
+		if t[i] == 0 {
+			return false
+		}
+		if t[i] == v {
+			return true
+		}
+	}
+	return false
+}
+
+//go:norace
+func dlAdd(t []int64, v int64) {
+	for i, n := dlSlot(v), 0; n < dlSize/2; i, n = (i+1)&(dlSize-1), n+1 {
+		if t[i] == 0 || t[i] == v {
+			t[i] = v
+			return
+		}
+	}
+}
+
 //go:norace
 func jitterFor(d time.Duration, tick bool) time.Duration {
 	s := current()
@@ -572,7 +600,7 @@ func jitterFor(d time.Duration, tick bool) time.Duration {
 	defer s.ulk()
 	s.jitterN++
 	if s.deadlines == nil {
-		s.deadlines = map[int64]struct{}{}
+		s.deadlines = make([]int64, dlSize)
 	}
 	now := int64(time.Since(s.start))
 	j := int64(hash64(s.cfg.SelSeed|1, uint64(s.jitterN)) % jitterRange)
@@ -584,12 +612,11 @@ func jitterFor(d time.Duration, tick bool) time.Duration {
 		p := int64(d) + 1 + j
 		free := true
 		for k := int64(1); k <= nt && free; k++ {
-			_, taken := s.deadlines[now+k*p]
-			free = !taken
+			free = !dlHas(s.deadlines, now+k*p)
 		}
 		if free {
 			for k := int64(1); k <= nt; k++ {
-				s.deadlines[now+k*p] = struct{}{}
+				dlAdd(s.deadlines, now+k*p)
 			}
 			return time.Duration(p)
 		}
